@@ -11,19 +11,19 @@ pub fn floor(x: i32) -> i32 {
 }
 
 pub fn round(x: i32) -> i32 {
-    floor(x + 32)
+    floor(x.wrapping_add(32))
 }
 
 pub fn ceil(x: i32) -> i32 {
-    floor(x + 63)
+    floor(x.wrapping_add(63))
 }
 
 fn floor_pad(x: i32, n: i32) -> i32 {
-    x & !(n - 1)
+    x & !(n.wrapping_sub(1))
 }
 
 pub fn round_pad(x: i32, n: i32) -> i32 {
-    floor_pad(x + n / 2, n)
+    floor_pad(x.wrapping_add(n / 2), n)
 }
 
 #[inline(always)]
@@ -48,15 +48,15 @@ pub fn mul_div(a: i32, b: i32, c: i32) -> i32 {
 pub fn mul_div_no_round(mut a: i32, mut b: i32, mut c: i32) -> i32 {
     let mut s = 1;
     if a < 0 {
-        a = -a;
+        a = a.wrapping_neg();
         s = -1;
     }
     if b < 0 {
-        b = -b;
+        b = b.wrapping_neg();
         s = -s;
     }
     if c < 0 {
-        c = -c;
+        c = c.wrapping_neg();
         s = -s;
     }
     let d = if c > 0 {
@@ -65,7 +65,7 @@ pub fn mul_div_no_round(mut a: i32, mut b: i32, mut c: i32) -> i32 {
         0x7FFFFFFF
     };
     if s < 0 {
-        -(d as i32)
+        (d as i32).wrapping_neg()
     } else {
         d as i32
     }
